@@ -38,10 +38,16 @@ class SubFamily:
         rt = rng.choice([{'flavor': 'current'}, {'flavor': 'current', 'chaos': {'max_yields': 4, 'seed': rng.randrange(1, 1 << 40)}}, {'flavor': 'multi', 'workers': 2, 'chaos': {'max_yields': 3, 'seed': rng.randrange(1, 1 << 40)}},
                          {'flavor': 'multi', 'workers': 4, 'chaos': {'max_yields': 3, 'seed': rng.randrange(1, 1 << 40)}}])
         mode = rng.choice(['quiescent', 'quiescent', 'inline'])
-        sc = {'id': '', 'family': 'sub', 'sched': rt['flavor'] + '-' + mode, 'seed': rng.randrange(1 << 30), 'runtime': rt, 'engine': {'store': 'mem', 'keep_processes': True}, 'models': [json.dumps(m) for m in models],
+        sc = {'id': '', 'family': 'sub', 'sched': rt['flavor'] + '-' + mode, 'seed': rng.randrange(1 << 30), 'runtime': rt, 'engine': {'store': opts.get('store', 'mem'), 'keep_processes': True}, 'models': [json.dumps(m) for m in models],
               'responder': {'mode': mode, 'order': rng.choice(['fifo', 'lifo', 'seeded']), 'rules': rules},
               'ops': [{'op': 'start', 'mid': 'm0', 'vars': {'pid': 'p0'}}, {'op': 'run', 'snap': opts.get('snap', 'live')}, {'op': 'snapshot', 'level': opts.get('snap', 'live')}]}
-        if mode == 'quiescent' and rng.random() < opts.get('evict', 0.3):
+        if opts.get('store') == 'sqlite':
+            sc['watchdog_ms'] = 60000
+            if mode == 'quiescent' and rng.random() < opts.get('restart', 0.6):
+                # the engine is stopped and started again on the same database while the leaf waits for the client
+                sc['faults'] = {'restart_at': sorted(set(rng.randint(1, 3) for _ in range(rng.randint(1, 2))))}
+                sc['sched'] += '+restart'
+        elif mode == 'quiescent' and rng.random() < opts.get('evict', 0.3):
             # the whole chain is dropped from the cache while the leaf waits for the client
             sc['faults'] = {'evict_at': sorted(set(rng.randint(1, 3) for _ in range(rng.randint(1, 2))))}
             sc['sched'] += '+evict'
